@@ -190,3 +190,53 @@ def rule_grattr_link(ctx):
             ctx.holds("GRLINK", key, f.where(), "new attributes are linked independently of data_modified", nontrivial=True)
     ctx.floor("GRLINK", 2, len(found), "(new_at tests in GRend: per-image and global loop)")
     return len(found)
+
+
+class _AttrType(PathAnalysis):
+    def __init__(self, prog):
+        super().__init__(prog)
+        self.bad = []
+        self.sites = set()
+
+    def init_user(self, func):
+        return None
+
+    def on_stmt(self, func, bid, idx, stmt, env, user):
+        for c in calls_in(stmt["e"]):
+            if c[1] in ("NC_new_attr", "H4_NC_new_attr"):
+                self.sites.add((c[5], c[6]))
+                user = c[5]
+        for x in walk(stmt["e"], True):
+            if x[0] == "asg" and x[1] == "=" and (mem_field(x[2]) or (0, 0))[1] == "HDFtype":
+                user = None
+        return user
+
+    def on_exit(self, func, bid, retval, env, user):
+        if user is not None and classify_ret(retval, self.fails) != "fail":
+            self.bad.append(user)
+
+
+def rule_attr_hdftype(ctx):
+    """ATTRTYPE: NC_new_attr derives the attribute's HDF number type from the netCDF type, which cannot express unsigned
+    (and UCHAR) types; every SD-layer function that creates an attribute from a caller-supplied HDF number type therefore
+    stores `->HDFtype` itself afterwards -- on the replace-existing path as well as on the new-attribute paths -- or the type
+    reported (and written to the file) changes from unsigned to signed."""
+    prog = ctx.prog
+    n = 0
+    for f in prog.lib_funcs():
+        if not f.rel.endswith("mfsd.c"):
+            continue
+        if not any(c[1] in ("NC_new_attr", "H4_NC_new_attr") for _, _, _, c in f.calls()):
+            continue
+        a = _AttrType(prog)
+        a.fails = fail_values(f, prog)
+        a.run(f)
+        n += len(a.sites)
+        key = "ATTRTYPE:%s" % f.name
+        if a.bad:
+            ctx.violated("ATTRTYPE", key, f.where(min(a.bad)), "an attribute created by NC_new_attr() at line %d reaches a non-failing return without its HDFtype being set from the caller's number type: "
+                         "unsigned types are reported and stored as signed" % min(a.bad))
+        else:
+            ctx.holds("ATTRTYPE", key, f.where(), "%d NC_new_attr site(s): HDFtype stored on every non-failing path" % len(a.sites), nontrivial=True)
+    ctx.floor("ATTRTYPE", 3, n, "(NC_new_attr call sites in the SD interface)")
+    return n
